@@ -94,6 +94,8 @@ pub struct Ctx {
     pub inner_dispatches: Vec<AtomicU32>,
     /// builder id -> `format!("{:?}", builder)` taken right before the builder is consumed
     pub debug_texts: Mutex<std::collections::BTreeMap<usize, Result<String, String>>>,
+    /// format specifications under which a builder's Debug text differs from `{:?}`: (spec, text)
+    pub debug_variants: Mutex<std::collections::BTreeMap<usize, Vec<(String, String)>>>,
     /// what `print_par_seq` wrote to standard output, per builder
     pub printed_texts: Mutex<std::collections::BTreeMap<usize, String>>,
 }
@@ -174,6 +176,7 @@ impl Ctx {
             inner_dispatches: av(n, || AtomicU32::new(0)),
             debug_texts: Mutex::new(Default::default()),
             printed_texts: Mutex::new(Default::default()),
+            debug_variants: Mutex::new(Default::default()),
         })
     }
 
